@@ -118,18 +118,22 @@ ParsableAsCoded(d) == /\ Len(d) > 0 /\ d[1].n >= 1
                       /\ \A i \in DOMAIN d : (d[i].n >= K /\ ~d[i].junk) \/ d[i].n = 0
 Decodable(d) == {d[i].k : i \in {j \in DOMAIN d : d[j].n >= K /\ ~d[j].junk}}
 
-Init == /\ shape \in Shapes /\ cfg = [p |-> 1, mt |-> 0, ip |-> TRUE]
+InitRest ==
+        /\ cfg = [p |-> 1, mt |-> 0, ip |-> TRUE]
         /\ phase = "idle" /\ exists = FALSE /\ disk = <<>> /\ pre = <<>> /\ queue = <<>>
         /\ wk = [w \in 1..3 |-> <<>>] /\ lst = [w \in 1..3 |-> {}] /\ outq = <<>> /\ cur = <<"none">>
         /\ evald = {} /\ atStart = {} /\ istart = {} /\ reeval = FALSE /\ crashes = 0
+Init == shape \in Shapes /\ InitRest
 
 (* ---- Start: restore what the file holds, then plan the remaining work (core.py 172-196) ---- *)
 Start(c) ==
-  /\ phase \in {"idle","crashed"} /\ c \in Cfgs
+  /\ phase \in {"idle","crashed"}
   /\ IF AsCoded /\ exists /\ ~ParsableAsCoded(disk)
      THEN /\ phase' = "unusable"
           /\ UNCHANGED <<shape,cfg,exists,disk,pre,queue,wk,lst,outq,cur,evald,atStart,istart,reeval,crashes>>
-     ELSE LET d    == IF ~exists THEN <<>> ELSE IF AsCoded THEN disk ELSE SelectSeq(disk, Complete)   \* intended: a torn tail is discarded
+     ELSE LET kept == SelectSeq(disk, LAMBDA x : x.n >= K /\ ~x.junk)       \* repaired restore: a record whose content is all there
+              d    == IF ~exists THEN <<>> ELSE IF AsCoded THEN disk         \* is kept and terminated, a partial one is dropped
+                      ELSE [i \in DOMAIN kept |-> [kept[i] EXCEPT !.n = K + 1]]
               have == IF AsCoded THEN Decodable(d) ELSE CompleteKeys(d)
               fresh == ~exists \/ (~AsCoded /\ <<"ver">> \notin have)      \* intended: nothing usable = start over
               d2   == IF fresh THEN <<>> ELSE d
